@@ -61,7 +61,7 @@ impl Outcome {
         if self.violations.len() >= self.max_reports {
             return None;
         }
-        let dir = std::path::Path::new(crate::VERIF_ROOT).join("replay").join(&self.prop);
+        let dir = crate::verif_root().join("replay").join(&self.prop);
         let _ = std::fs::create_dir_all(&dir);
         let h = crate::util::hash_str(&format!("{key}\n{replay_body}"));
         let path = dir.join(format!("{:016x}.{}", h, ext));
